@@ -5,7 +5,21 @@ VERIF = "/verif"
 props = [json.loads(l) for l in open(os.path.join(VERIF, "properties.jsonl"))]
 hook_commits = subprocess.run(["git", "-C", "/repo", "log", "--format=%H", "--grep", "^verif hook"], capture_output=True, text=True).stdout.split()
 
+M_TECH = "symbolic execution of rustc MIR + z3 (SMT over reals), bounded; counterexamples replayed on the native build"
+M_NOTE = " f64 is modelled as exact reals (NaN/inf excluded by assumption; divisors proved non-zero on accepted paths); rounding is outside the claim. Trusted base: rustc MIR dump, the mir2smt interpreter (validated per harness against the real build on sampled vectors), z3."
 CLAIMED = {
+ "C01": dict(
+  text="Bounded symbolic checking of the real code. Engine M executes the MIR of the four component step functions, ConventionalLoco/BatteryElectricLoco::solve_energy_consumption and the Locomotive sequence set_pwr_aux; set_cur_pwr_max_out; solve_energy_consumption (what LocomotiveSimulation::solve_step drives) from an arbitrary symbolic pre-state and z3 decides each balance as an identity over all inputs: per-component power balance, every cumulative energy grows by its own power times dt, every hand-off (engine shaft = generator input, generator output = drivetrain input, battery electrical = propulsion + aux), the locomotive ledger fuel/chemical = wheel + dynamic brake + aux + losses, and SOC moves by chemical energy / capacity. One step from an arbitrary state is inductive, so the cumulative ledger follows for every trace prefix.",
+  note="Efficiency maps of 2-4 points; battery map 1x2x2 / 1x3x2. At locomotive level the efficiency-map interpolations are replaced by their contracts (result within the map's value range), proved by C08's interp contract harnesses; SOC derating tables are executed exactly. Consist-level roll-ups (pwr_fuel, pwr_reves, energies = sums over units) are not yet covered by a harness (thorough tier planned); HybridLoco and DummyLoco are outside the claim." + M_NOTE,
+  technique=M_TECH, design_ref="DESIGN.md section 4 (C01)"),
+ "C09": dict(
+  text="Bounded symbolic checking of the real code. For FuelConverter (publish transient limit, then solve at an adversarial symbolic demand), Generator, ElectricDrivetrain, ReversibleEnergyStorage (publish SOC-dependent limits, then solve) and for whole conventional / battery-electric locomotive steps, z3 decides for every pre-state, rating, ramp lag, SOC window, demand and dt: an accepted step keeps shaft power within rating and within the limit just published (up to the code's own TOL), the published engine limit never exceeds max(previous shaft power + rating/lag*dt, floor) nor the rating, generator/drivetrain/battery powers are within ratings and published charge/discharge limits, published limits lie in [-aux, rating], the battery limits are exactly the linear derating ramps, an over-limit demand is rejected, and SOC stays inside [min_soc, max_soc] up to the tolerance under the stated domain bound (one step cannot cross a derating ramp).",
+  note="The SOC-window claim carries two explicit domain bounds (dt*P_max*(1+TOL) <= E*eta_lo*ramp_width); without them a single large step leaves the window, which is recorded in DESIGN.md as an observation, not claimed. 'Tractive power within the published locomotive limit' is enforced by the consist-level ensure! (covered by C10 assumptions) and is not separately claimed for a lone Locomotive. Maps 2-4 points." + M_NOTE,
+  technique=M_TECH, design_ref="DESIGN.md section 4 (C09)"),
+ "C10": dict(
+  text="Bounded symbolic checking of the real code. Engine M executes the MIR of PowerDistributionControlType::solve_positive_traction / solve_negative_traction (RESGreedy and Proportional, incl. get_pwr_regen_vec and the shared solve_negative_traction) for every enumerated composition of conventional and battery-electric units with symbolic per-unit published limits, drivetrain ratings, regen limits and a symbolic demand between full dynamic braking and full traction. z3 decides: assignments sum to the demand, each unit's traction <= its published limit, each unit's braking <= its drivetrain rating, signs agree with the demand, regeneration only on battery units and within their regen limit when regen suffices, RESGreedy's fuel units deliver exactly the deficit, the policy never returns Err and its internal assert cannot fire.",
+  note="Compositions: quick CB, BC, CC, BB, CBC; thorough all mixes up to 3 units plus CBCB (8-unit consists are outside the bound; the code is uniform in the unit index). Consist aggregates (sums of unit limits, deficits) enter as assumptions written from Consist::set_cur_pwr_max_out / solve_energy_consumption; published per-unit limits are assumed non-negative." + M_NOTE,
+  technique=M_TECH, design_ref="DESIGN.md section 4 (C10)"),
  "C08": dict(
   text="Bounded symbolic checking of the real code. Engine M executes the rustc MIR of FuelConverter::solve_energy_consumption, Generator::set_pwr_in_req, ElectricDrivetrain::set_pwr_in_req, ReversibleEnergyStorage::solve_energy_consumption, utils::interp1d and utils::interp3d path by path and z3 decides, for every pre-state, demand, time step, efficiency-map value and engine_on flag inside the stated map sizes, that eta is in (0,1], loss >= 0, output <= input in the direction of flow, dynamic braking is zero unless demanded, cumulative fuel/loss/dyn-brake energies do not decrease and an engine-off step burns no fuel. One step from an arbitrary state is an inductive step, so it covers histories of any length.",
   note="f64 is modelled as exact reals (NaN/inf excluded by assumption; every division's divisor is separately proved non-zero on accepted paths); rounding is outside the claim. Map sizes: 2-5 points (1-D), up to 2x2x2 / 1x3x3 (3-D). In the RES step interp3d is replaced by its contract (result within the value range), which is proved by its own harness on symbolic grids. Locomotive::set_pwr_aux(engine_on) is covered by C01/C09 harnesses at locomotive level. Trusted base: rustc MIR dump, the mir2smt interpreter (validated per harness against the real build on sampled vectors), z3.",
